@@ -42,6 +42,9 @@ CONSTANTS
   DupTypes = {}
   CompactNodes = {}
   MaxDups = 1
+  MaxReqSnaps = 0
+  ReqSnapNodes = {}
+  MaxUnreach = 0
 CONSTRAINT Bound
 INVARIANT Judge
 INVARIANT Replay
